@@ -30,6 +30,45 @@ from twosigma.memento.serialization import MementoCodec
 from twosigma.memento.types import MementoFunctionType
 
 
+def _stable_repr(o) -> str:
+    """
+    A `repr` that does not depend on hash randomization or memory addresses, for the values
+    that can appear as code constants or parameter defaults.
+
+    """
+    if isinstance(o, (frozenset, set)):
+        return "{}({{{}}})".format(
+            type(o).__name__, ", ".join(sorted(_stable_repr(x) for x in o))
+        )
+    if isinstance(o, tuple):
+        return "({}{})".format(
+            ", ".join(_stable_repr(x) for x in o), "," if len(o) == 1 else ""
+        )
+    if isinstance(o, list):
+        return "[{}]".format(", ".join(_stable_repr(x) for x in o))
+    if isinstance(o, dict):
+        return "{{{}}}".format(
+            ", ".join(
+                sorted(
+                    "{}: {}".format(_stable_repr(k), _stable_repr(v))
+                    for (k, v) in o.items()
+                )
+            )
+        )
+    if (
+        o is None
+        or o is Ellipsis
+        or isinstance(o, (bool, int, float, complex, str, bytes))
+    ):
+        return repr(o)
+    if isinstance(o, MementoFunctionType):
+        return "<memento function {}>".format(o.qualified_name_without_version)
+    if hasattr(o, "__module__") and hasattr(o, "__qualname__"):
+        return "<{} {}:{}>".format(type(o).__name__, o.__module__, o.__qualname__)
+    # Unknown object: only its type can be described in a stable way
+    return "<{}:{}>".format(type(o).__module__, type(o).__qualname__)
+
+
 def fn_code_hash(fn: Callable, salt: str = None, environment: bytes = None) -> str:
     """
     Compute a hex digest of the code for a function.
@@ -77,7 +116,7 @@ def fn_code_hash(fn: Callable, salt: str = None, environment: bytes = None) -> s
             sha256.update(json.dumps(attr_values, sort_keys=True).encode("utf-8"))
             return sha256.hexdigest()[0:16]
         else:
-            return repr(o)
+            return _stable_repr(o)
 
     if isinstance(fn, MementoFunctionType):
         memento_fn = fn  # type: MementoFunctionType
